@@ -1,11 +1,15 @@
-"""C16 — generators denote fixed lazy streams (narrowed).  K-crate: take/skip pipelines through the real natives and the real iterator."""
-from . import kcrate
+"""C16 — generators denote fixed lazy streams (narrowed).  K-crate: merging of take/skip into one Slice keeps the denoted
+window (XGenerator::slice on symbolic windows).  K-unit slice: the iterator arm of Slice yields exactly that window, twice."""
+from . import c08, kcrate
 
 OUT = [
     "adaptors whose callee is a user function (map, filter, aggregate, take_while...), chain/zip/product/windows/group, prelude adaptors",
-    "pipelines longer than 3 steps, sources longer than 5 elements, laziness on infinite sources",
+    "the take/skip natives themselves and consumption through the public iter/to_array path (generators behind Rc<dyn ..> are not "
+    "explorable by CBMC): decided are the two pieces they are made of, the merge arithmetic and the iterator arm",
+    "windows beyond 1000 (merge) / inner streams longer than 6 (iterator arm); laziness on infinite sources",
 ]
 
 
 def run(chk):
+    c08.run_slices(chk, ["c16_"], module="c16")
     return kcrate.run(chk, [("builtin__generators.rs", "c16_")], out=OUT, timeouts=(600, 2400))
